@@ -1,4 +1,4 @@
 SPECIFICATION Spec
-CONSTANTS Keys = {"a", "b"} MaxTTLs = {0, 2} TTLs = {1, 2, 3} MaxNow = 5 Procs = {"c1", "c2", "cleaner"}
+CONSTANTS TPS = 1 Keys = {"a", "b"} MaxTTLs = {0, 2} TTLs = {1, 2, 3} MaxNow = 5 Procs = {"c1", "c2", "cleaner"}
 INVARIANTS HitIsLatestLive LiveNeverVanishes CapApplied
 CHECK_DEADLOCK FALSE
